@@ -167,8 +167,11 @@ func isFieldOptional(f reflect.StructField) (bool, error) {
 
 	optional, err := strconv.ParseBool(tag)
 	if err != nil {
+		// The strconv error is part of the message rather than a wrapped
+		// cause: the failure originates in dig, so RootCause must not
+		// report it as a foreign error.
 		err = newErrInvalidInput(
-			fmt.Sprintf("invalid value %q for %q tag on field %v", tag, _optionalTag, f.Name), err)
+			fmt.Sprintf("invalid value %q for %q tag on field %v: %v", tag, _optionalTag, f.Name, err), nil)
 	}
 
 	return optional, err
